@@ -14,7 +14,7 @@ from pathlib import Path
 
 V = Path(__file__).resolve().parent.parent
 REPO = Path(os.environ["SPOX_REPO"])
-assert str(REPO).startswith("/work/repo-"), "refusing to mutate anything but a scratch copy"
+assert str(REPO).startswith("/work/repo-") or "/.work/repo-" in str(REPO), "refusing to mutate anything but a scratch copy"
 
 V17 = "src/spox/opset/ai/onnx/v17.py"
 MUT = {
@@ -37,6 +37,38 @@ MUT = {
     },
     "C11-round4": {
         "dtype-memo-keyed-by-str": [("src/spox/_utils.py", "    err_msg = f\"{dtype_like} is not a valid ONNX tensor element type.\"\n    if dtype_like is None:", "    err_msg = f\"{dtype_like} is not a valid ONNX tensor element type.\"\n    try:\n        _key = np.dtype(dtype_like).str\n        if _key in _MEMO:\n            return _MEMO[_key]\n    except Exception:\n        _key = None\n    if dtype_like is None:"), ("src/spox/_utils.py", "    try:\n        return onnx.helper.np_dtype_to_tensor_dtype(dtype)\n", "    try:\n        _r = onnx.helper.np_dtype_to_tensor_dtype(dtype)\n        if _key is not None:\n            _MEMO[_key] = _r\n        return _r\n"), ("src/spox/_utils.py", "def tensor_type_to_dtype(ttype: int)", "_MEMO: dict = {}\n\n\ndef tensor_type_to_dtype(ttype: int)")],
+    },
+    # ---- rounds 6-8 (spellings, inputs, inventories, inline-custom, results / construct, len vs flattened)
+    "C11-r6": {
+        "attrdtype-canonicalises-with-np-dtype": [("src/spox/_attributes.py", "    _attribute_proto_type = AttributeProto.INT\n\n    def _validate(self):\n        dtype_to_tensor_type(self.value)\n", "    _attribute_proto_type = AttributeProto.INT\n\n    def __init__(self, value, name):\n        if not isinstance(value, _Ref):\n            value = np.dtype(value)\n        super().__init__(value, name)\n\n    def _validate(self):\n        dtype_to_tensor_type(self.value)\n")],
+        "dtype-valueerror-let-through": [("src/spox/_utils.py", "        # numpy reports a malformed dtype specification such as ``(int, -1)`` with ValueError\n        raise TypeError(err_msg)", "        raise")],
+        "attrint64-none-becomes-zero": [("src/spox/_attributes.py", "    def _to_onnx_deref(self) -> AttributeProto:\n        return make_attribute(self._name, self.value)\n\n\nclass AttrString", "    def _to_onnx_deref(self) -> AttributeProto:\n        return make_attribute(self._name, self.value or 0)\n\n\nclass AttrString")],
+        "attrstring-coerces-with-str": [("src/spox/_attributes.py", "    _attribute_proto_type = AttributeProto.STRING\n\n    def _to_onnx_deref(self) -> AttributeProto:\n        return make_attribute(self._name, self.value)", "    _attribute_proto_type = AttributeProto.STRING\n\n    def _to_onnx_deref(self) -> AttributeProto:\n        return make_attribute(self._name, self.value if isinstance(self.value, (str, bytes)) or self.value is None else str(self.value))")],
+        "multinomial-none-dtype-invented": [(V17, "            dtype=AttrDtype(dtype, name=\"dtype\"),", "            dtype=AttrDtype(dtype if dtype is not None else np.float64, name=\"dtype\"),")],
+        "optional-input-accepts-int": [("src/spox/_fields.py", "                if value is not None and not isinstance(value, Var):\n                    raise TypeError(", "                if value is not None and not isinstance(value, (Var, int)):\n                    raise TypeError(")],
+        "single-input-accepts-none": [("src/spox/_fields.py", "            if field_type == VarFieldKind.SINGLE:\n                if not isinstance(value, Var):", "            if field_type == VarFieldKind.SINGLE:\n                if value is not None and not isinstance(value, Var):")],
+        "min-input-counts-single-inputs": [("src/spox/_standard.py", "        return self.schema.min_input\n", "        return sum(1 for p in self.schema.inputs if p.option == p.option.Single)\n")],
+        "baseVars-len-counts-fields": [("src/spox/_fields.py", "        return sum(1 for _ in self)", "        return len(dataclasses.fields(self))")],
+    },
+    "C18-r6": {
+        "adapt-inline-early-return-on-foreign-domain": [("src/spox/_adapt.py", "    if not seen_domains & {\"\", \"ai.onnx\"}:\n        return protos", "    if not seen_domains & {\"\", \"ai.onnx\"}:\n        return protos\n    if any(d not in SCHEMAS for d in seen_domains if d != \"ai.onnx\"):\n        return protos")],
+        "adapt-inline-only-single-import": [("src/spox/_adapt.py", "    if source_version != target_version:\n        target_model", "    if source_version != target_version and len(node.model.opset_import) == 1:\n        target_model")],
+        "inline-opset-req-drops-custom": [("src/spox/_inline.py", "        req = {(imp.domain, imp.version) for imp in self.model.opset_import} | {", "        req = {(imp.domain, imp.version) for imp in self.model.opset_import if imp.domain in (\"\", \"ai.onnx\", \"ai.onnx.ml\")} | {")],
+        "adapt-inline-skips-subgraph-models": [("src/spox/_adapt.py", "    seen_domains = {prot.domain for prot in protos}", "    seen_domains = {prot.domain for prot in protos}\n    if any(a.type == onnx.AttributeProto.GRAPH for p in protos for a in p.attribute):\n        return protos")],
+        "initializer-step-removed": [("src/spox/_adapt.py", "        _initializers_to_constants(target_model.graph)\n", "")],
+        "initializer-step-drops-foreign-nodes": [("src/spox/_adapt.py", "    nodes = constants + list(graph.node)", "    nodes = constants + [n for n in graph.node if n.domain in (\"\", \"ai.onnx\")]")],
+        "results-not-required-concrete": [("src/spox/_graph.py", "                name, concrete=concrete, _traceback_name=f\"result {name} ({var})\"", "                name, concrete=False, _traceback_name=f\"result {name} ({var})\"")],
+        "missing-hook-entry-falls-back": [("src/spox/_node.py", "var.type = out_types.get(key)", "var.type = out_types.get(key) or next(iter(out_types.values()), None)")],
+        "infer-types-flag-ignored": [("src/spox/_node.py", "        out_types = self.infer_output_types() if infer_types else {}", "        out_types = self.infer_output_types()")],
+        "validate-flag-ignored": [("src/spox/_node.py", "        if validate:\n            self.validate_types()", "        self.validate_types()")],
+        "baseVars-len-counts-fields": [("src/spox/_fields.py", "        return sum(1 for _ in self)", "        return len(dataclasses.fields(self))")],
+        "function-opset-req-drops-custom": [("src/spox/_function.py", "        return node_opset_req | self.func_graph._get_build_result().opset_req", "        return node_opset_req | {r for r in self.func_graph._get_build_result().opset_req if r[0] in (\"\", \"ai.onnx\", \"ai.onnx.ml\")}")],
+    },
+    # harmless rewrites of the functions the tie-G inventories pin: must stay quiet (exit 0)
+    "C18-harmless": {
+        "adapt-inline-local-renamed": [("SED", r"s/seen_domains/domains_seen/g", "src/spox/_adapt.py")],
+        "adapt-inline-extra-unused-local": [("src/spox/_adapt.py", "    target_version = target_opsets[\"\"]\n    # The version the inlined", "    target_version = target_opsets[\"\"]\n    _n_protos = len(protos)\n    # The version the inlined")],
+        "adapt-inline-extra-used-local": [("src/spox/_adapt.py", "    if not seen_domains & {\"\", \"ai.onnx\"}:\n        return protos", "    default_names = {\"\", \"ai.onnx\"}\n    if not seen_domains & default_names:\n        return protos")],
     },
     "C11-repeat": {
         "trim-end-located-by-name-lookup": [("src/spox/_node.py", "        while len(input_names) > self.min_input and not input_names[-1]:\n            input_names.pop()\n", "        _used = [n for n in input_names if n]\n        _end = input_names.index(_used[-1]) + 1 if _used else 0\n        input_names = input_names[: max(_end, min(self.min_input, len(input_names)))]\n")],
